@@ -372,6 +372,20 @@ def body_timed_pt(case, ctx):
     ctx.event("budget<1cycle" if budget < cycle else "budget>=1cycle")
 
 
+def _pt_advance_cases():
+    """a tempering ladder advanced by n steps adds n samples to every chain, for every swap interval (the C08 history check, whose
+    step-count clauses are C15's: same generator, same body)"""
+    from props import c08_tempering as c08
+
+    return c08.advance_cases()
+
+
+def _pt_advance_body(case, ctx):
+    from props import c08_tempering as c08
+
+    return c08.body_advance(case, ctx)
+
+
 SUBCHECKS = [
     Sub("counts", lambda t: history_cases(), body_counts, quick=400, thorough=8000, shards_quick=16, shards_thorough=16, weight=5,
         rule="history with m=0, an m<100 and a non-multiple >=100 (ensemble: a 0-iteration advance among >=3 operations)"),
@@ -383,6 +397,8 @@ SUBCHECKS = [
         rule="step cost > 1 virtual second with a budget worth > 20 steps"),
     Sub("timed", lambda t: timed_cases(), body_timed, quick=600, thorough=20000, shards_quick=8, shards_thorough=16,
         rule="step cost > 1 virtual second with a budget worth > 20 steps"),
+    Sub("tempering-counts", lambda t: _pt_advance_cases(), _pt_advance_body, quick=48, thorough=1500, shards_quick=16, shards_thorough=16, weight=60,
+        rule="N >= 2 and an advance whose n is not a multiple of swap_interval"),
     Sub("timed-tempering", lambda t: timed_pt_cases(), body_timed_pt, quick=48, thorough=1500, shards_quick=16, shards_thorough=16, weight=80,
         rule="swap cycle costing > 2 virtual seconds with a budget worth > 3 cycles"),
 ]
